@@ -179,9 +179,8 @@ func StaticWithConfig(config StaticConfig) echo.MiddlewareFunc {
 			if config.IgnoreBase {
 				routePath := path.Base(strings.TrimRight(c.Path(), "/*"))
 				baseURLPath := path.Base(p)
-				if baseURLPath == routePath {
-					i := strings.LastIndex(name, routePath)
-					name = name[:i] + strings.Replace(name[i:], routePath, "", 1)
+				if baseURLPath == routePath && path.Base(name) == routePath {
+					name = strings.TrimSuffix(name, routePath)
 				}
 			}
 
